@@ -67,7 +67,11 @@ impl Resolver<'_> {
             return cols;
         };
 
-        for (ident, decl) in this.as_decls().into_iter().sorted_by_key(|x| x.1.order) {
+        for (ident, decl) in this
+            .as_decls()
+            .into_iter()
+            .sorted_by_key(|x| (x.1.order, x.0.to_string()))
+        {
             if let DeclKind::Column(_) = decl.kind {
                 cols.push(ident);
             }
